@@ -40,6 +40,12 @@ CLAIMED = {
   "note": "Trusted: Lean kernel + three standard axioms; Windows path prefixes (filename_validate_relative) not modelled; termination of the expansion is by fuel in the model (fuel exhaustion never observed in the correspondence; not proved impossible); '<std>/ names only the built-in library' is enforced in FileServerReal (fixed, F18) and exercised on the real binary only in the thorough tier; symlinks and mount points are outside any model.",
   "technique": "Lean 4 proof (induction over path components / operations) + model/implementation correspondence",
  },
+ "C18": {
+  "text": "Lean 4 theorems over the model of driver.rs (Casm/Props/C18.lean), generic over the format table, option table and usage text re-extracted on every run: documented_accepted (every format of usage_help.md is accepted and selects that variant; every documented parameter exists with the documented default), documented_defaults, same_as_holds, code_names_vs_usage (the code's names = the documented ones + two aliases), unknown_format_rejected, leftover_param_rejected, invalid_value_rejected / malformed_value_rejected, tcgame_base_set; derived_ne_input, extension_table, default_formats, groups_independent (the files written are the concatenation of what each group contributes alone), one_file_per_group, finish_names, parse_error_before_assembling. Tie: every format string family through parse_output_format, and 4k structured command lines (groups, spellings, globals anywhere, faults) through driver::drive on an in-memory file server, compared with the model and with the intended meaning of the structure; getopts is modelled from its source.",
+  "design_ref": "DESIGN.md section 6, C18",
+  "note": "Trusted: Lean kernel + three standard axioms; translator regexes for the tables; getopts 0.2.24 semantics as modelled (differentially tested on every spelling); PathBuf::set_extension modelled for paths without trailing separator; printing to the screen (-p) is observed as 'no file written' here, its text on the real binary only in the thorough tier; undocumented aliases (F27) and equal derived names (F21) are known findings.",
+  "technique": "Lean 4 proof (decide over extracted tables, induction over groups) + extracted tables + model/implementation correspondence",
+ },
 }
 
 NOT_YET = {}
